@@ -31,7 +31,7 @@ Atoms == { <<Id(<<120>>)>>, <<CurT>>, <<Star>>, <<LB, Star, RB>>, <<Flat>>, <<Id
            <<LB, IntT(<<48>>), RB>>, <<Filt, Id(<<97>>), RB>>, <<Json(<<96,91,91,49,44,110,117,108,108,93,44,91,50,93,93,96>>)>> }
 
 Suffixes == {
-  <<Dot, Id(<<97>>)>>, <<Dot, Id(<<98>>)>>, <<Dot, t("qid", <<34,107,34>>)>>,
+  <<Dot, Id(<<97>>)>>, <<Dot, Id(<<98>>)>>, <<Dot, Tk("qid", <<34,107,34>>)>>,
   <<LB, IntT(<<48>>), RB>>, <<LB, IntT(<<45,49>>), RB>>, <<LB, IntT(<<49>>), RB>>,
   <<LB, IntT(<<49>>), Colon, RB>>, <<LB, Colon, IntT(<<49>>), RB>>,
   <<LB, Colon, Colon, IntT(<<45,49>>), RB>>, <<LB, Colon, Colon, IntT(<<50>>), RB>>,
